@@ -456,7 +456,37 @@ def rule_raw_constructor(ctx):
             ok = "is_raw_dataclass(cls)" in cj and "settings.deserialization.override_dataclass_constructors" in cj
             ctx.check(ok, rule, f"{factory.qualname}:FieldsConstructor", c, "FieldsConstructor selected without is_raw_dataclass(cls) and the override_dataclass_constructors setting", factory, c, detail="guarded by the setting and is_raw_dataclass")
             args = bind_args(init_params(model, model.cls(f"{DESER_MOD}.FieldsConstructor")), c)
-            ctx.check(norm(args.get("nb_fields")) == "len(fields)", rule, f"{factory.qualname}:nb_fields", c, "FieldsConstructor.nb_fields must be the number of object fields (it decides whether defaults are completed)", factory, c, detail="len(fields)")
+            # nb_fields decides whether defaults are completed: it must count the universe the default / factory
+            # tuples range over (every attribute the generated __init__ would set), not this operation's fields
+            universes = set()
+            for pname in ("default_fields", "factory_fields"):
+                a = args.get(pname)
+                gen = next((g for g in ast.walk(a) if isinstance(g, ast.GeneratorExp)), None) if a is not None else None
+                universes.add(norm(gen.generators[0].iter) if gen is not None else "?")
+            u = universes.pop() if len(universes) == 1 else "?"
+            ctx.check(u != "?" and "dataclasses.fields(" in u and norm(args.get("nb_fields")) == f"len({u})", rule, f"{factory.qualname}:nb_fields", c,
+                      f"FieldsConstructor.nb_fields is `{norm(args.get('nb_fields'))}` while the defaults range over `{u}`: when the counts differ (a field skipped for deserialization) the completion of defaults is skipped and the instance lacks an attribute",
+                      factory, c, detail=f"len({u})")
+    # construct(): a default is stored exactly for the names missing from the values
+    from ..boolx import BoolEval, Unknown
+    from ..pathcond import complements, parents_of, path_condition
+    parents = parents_of(fc.node)
+    ev = BoolEval(complements({"len(fields) != self.nb_fields": "mismatch", "self.nb_fields != len(fields)": "mismatch",
+                               "default_field.name not in obj_dict": "!present", "factory_field.name not in obj_dict": "!present",
+                               "default_field.name not in fields": "!present", "factory_field.name not in fields": "!present"}))
+    stores = [a for a in ast.walk(fc.node) if isinstance(a, ast.Assign) and isinstance(a.targets[0], ast.Subscript) and norm(a.targets[0].slice) in ("default_field.name", "factory_field.name")]
+    ctx.check(len(stores) == 2, rule, f"{fc.qualname}:stores", fc.node.body[0], "FieldsConstructor.construct no longer completes both plain defaults and default factories", fc, fc.node, detail="2 completion sites")
+    for a in stores:
+        kind = norm(a.targets[0].slice).split("_")[0]
+        try:
+            got = ev.compile(path_condition(fc.node, a, parents))
+            bad = [p for p in (True, False) if bool(got({"mismatch": True, "present": p})) != (not p)]
+        except Unknown as err:
+            ctx.undecided(rule, f"{fc.qualname}:{kind}: {err}")
+            continue
+        ctx.check(not bad, rule, f"{fc.qualname}:{kind}-completion", a, f"`{short(a, 60)}` is not executed exactly when the name is absent from the deserialized values", fc, a, detail="stored iff name not in values")
+        want = "default_field.default_value" if kind == "default" else "factory_field.factory()"
+        ctx.check(norm(a.value) == want, rule, f"{fc.qualname}:{kind}-value", a, f"the completed value is `{norm(a.value)}`, expected `{want}`", fc, a, detail=want)
 
 
 # --------------------------------------------------------------------------- R5
@@ -557,6 +587,10 @@ def mutants(mb):
     S = "apischema/serialization/__init__.py"
     DM = "apischema/deserialization/methods.py"
     SM = "apischema/serialization/methods.py"
+    mb.add_text("nb-fields-operation-subset", D, "                    len(dataclasses.fields(cls)),\n", "                    len(fields),\n", "C08.R4", "nb_fields")
+    mb.add_text("construct-default-when-present", DM, "                if default_field.name not in obj_dict:", "                if default_field.name in obj_dict:", "C08.R4", "default-completion")
+    mb.add_text("construct-guard-flipped", DM, "        if len(fields) != self.nb_fields:", "        if len(fields) == self.nb_fields:", "C08.R4", "completion")
+    mb.add_text("construct-factory-not-called", DM, "                    obj_dict[factory_field.name] = factory_field.factory()", "                    obj_dict[factory_field.name] = factory_field.factory", "C08.R4", "factory-value")
     mb.add_text("float-in-check-only", D, "    NoneMethod,\n    BoolMethod,\n    IntMethod,\n    StrMethod,", "    NoneMethod,\n    BoolMethod,\n    IntMethod,\n    FloatMethod,\n    StrMethod,", "C08.R1", "FloatMethod")
     mb.add_text("typecheck-identity-relisted", S, "CHECK_ONLY_METHODS = (\n    IdentityMethod,\n    CollectionCheckOnlyMethod,", "CHECK_ONLY_METHODS = (\n    IdentityMethod,\n    TypeCheckIdentityMethod,\n    CollectionCheckOnlyMethod,", "C08.R1", "TypeCheckIdentityMethod")
     mb.add_text("typecheck-any-fallback", S, "            isinstance(method, TypeCheckMethod)\n            and isinstance(method.fallback, NoFallback)\n            and check_only(method.method)", "            isinstance(method, TypeCheckMethod)\n            and check_only(method.method)", "C08.R1", "TypeCheckMethod")
